@@ -30,7 +30,12 @@ def emit_session(sess, path, qsteps=None):
         try:
             pre = oname(st["pre"])
             post = oname(st["post"])
-            if st["op"].get("reentry"):
+            if st["op"].get("reentry") and any(x.get("reentry") for x in st["op"]["reentry"]):
+                # nested deeper than one level: the tree rule (the outcomes of the nested calls are not compared here)
+                term = "(check_tstep cfg %s %s %s %s %s)" % (
+                    pre, emit.rop(st["op"]), "true" if st["outcome"] == "ok" else "false",
+                    emit.lst(emit.out_msg(m) for m in st["msgs"]), post)
+            elif st["op"].get("reentry"):
                 nested = st.get("nested")
                 nested_t = "None" if nested is None else "(Some %s)" % emit.lst("true" if x else "false" for x in nested)
                 term = "(check_rstep cfg %s %s %s %s %s %s %s)" % (
